@@ -91,6 +91,11 @@ REPETITIVE = [
 ]
 
 INDEPENDENT = [
+    # node classes that have a concrete SUBCLASS (Cast/TryCast, Concat/ConcatWs, Order/Sort ...): a pairing across the two is a type mismatch
+    "SELECT CAST(a AS INT) FROM t",
+    "SELECT TRY_CAST(a AS INT) FROM t",
+    "SELECT CONCAT(a, b) FROM t",
+    "SELECT CONCAT_WS(a, b) FROM t",
     "SELECT 1",
     "SELECT a",
     "SELECT a FROM t",
